@@ -1,0 +1,6 @@
+//go:build !verif
+
+package types
+
+// verifEpochHook is a no-op unless the package is built with the "verif" tag.
+func verifEpochHook(string, string, int64, int, EpochHooks) {}
